@@ -442,15 +442,20 @@ def _foreign_doc(poly, with_delta, with_desc, n_order, null_offsets, with_meta):
         {"parent": 11, "op": "Const", "v": {"v": "Sum", "tag": 0, "typ": {"t": "Sum", "s": "Unit", "size": 1}, "vs": []}},
         {"parent": 11, "op": "LoadConstant", "datatype": {"t": "Sum", "s": "Unit", "size": 1}},
         {"parent": 10, "op": "ExitBlock", "cfg_outputs": [Bt]},
+        {"parent": 0, "op": "FuncDecl", "name": "f2", "signature": {"params": [], "body": {"t": "G", "input": [Bt], "output": [Bt], "runtime_reqs": []}}},
+        {"parent": 1, "op": "LoadFunction", "func_sig": {"params": [], "body": {"t": "G", "input": [Bt], "output": [Bt], "runtime_reqs": []}},
+         "type_args": [], "instantiation": {"t": "G", "input": [Bt], "output": [Bt], "runtime_reqs": []}},
+        {"parent": 1, "op": "CallIndirect", "signature": {"t": "G", "input": [Bt], "output": [Bt], "runtime_reqs": []}},
     ]
     edges = [
         [[2, 1], [4, 0]], [[4, 0], [5, 0]], [[2, 0], [3, 0]],
         [[6, 0], [7, 0]],
         [[8, 0], [9, 0]], [[9, 0], [10, 0]],
         [[12, 0], [13, 1]], [[14, 0], [15, 0]], [[15, 0], [13, 0]], [[11, 0], [16, 0]],
+        [[17, 0], [18, 0]], [[18, 0], [19, 0]], [[4, 0], [19, 1]],
     ]
     # state-order edges between dataflow siblings: Input->Ext op, Ext op->Tag, Call->CFG
-    order = [(2, 4, 2, 1), (4, 5, 2, 1), (9, 10, 1, 1)][:n_order]   # (src, dst, src other-port index, dst other-port index)
+    order = [(2, 4, 2, 1), (4, 5, 2, 1), (9, 10, 1, 1), (4, 19, 2, 2), (18, 19, 1, 2)][:n_order]   # (src, dst, src other-port index, dst other-port index)
     for (a, b, oa, ob) in order:
         edges.append([[a, None], [b, None]] if null_offsets else [[a, oa], [b, ob]])
     md = None
@@ -478,16 +483,16 @@ def _norm_edges(edges, order):
     return sorted(out, key=repr)
 
 
-@lemma("C05", bounds="a 17-node module document in hugr-core's conventions (polymorphic FuncDefn, Call with type args, extension op with description "
-                     "and args, opaque types, nested sum constants, CFG with a block carrying an extension delta) with symbolic variations: "
-                     "polymorphic or not, delta / description / metadata present or not, 0..3 state-order edges written with null or explicit offsets",
+@lemma("C05", bounds="a 20-node module document in hugr-core's conventions (polymorphic FuncDefn, Call with type args, extension op with description "
+                     "and args, opaque types, nested sum constants, CFG with a block carrying an extension delta, LoadFunction + CallIndirect) with symbolic variations: "
+                     "polymorphic or not, delta / description / metadata present or not, 0..5 state-order edges (into / out of extension ops, Tag, Call, CFG, LoadFunction, CallIndirect) written with null or explicit offsets",
        outside="other foreign documents; documents with null offsets on non-dataflow nodes")
 def foreign_document_resave():
     from vrf.harness.c03 import strict_schema_ok
     poly = sym.concretize(sym.bool("polymorphic"))
     delta = sym.concretize(sym.bool("delta"))
     desc = sym.concretize(sym.bool("description"))
-    n_order = sym.concretize(sym.int("order_edges", 0, 3))
+    n_order = sym.concretize(sym.int("order_edges", 0, 5))
     nulls = sym.concretize(sym.bool("null_offsets"))
     meta = sym.concretize(sym.bool("metadata"))
     doc, order = _foreign_doc(poly, delta, desc, n_order, nulls, meta)
